@@ -18,6 +18,8 @@ from . import analysis
 
 rule("C10.a", "no public function writes call-dependent state (grid, prices, other objects' parameters) into an object it "
               "received as an argument, into a constructor-kept parameter of the asset, or into another asset", floor=25)
+rule("C06.g", "CHP / plant set-up does not modify the asset's own ramp profiles, runtimes and limits (C10.a seen from C06: the second "
+              "set-up of the same plant must impose the same start / shutdown profile as the first)", floor=0)
 rule("C10.e", "price data received by a set-up is never modified in place (directly or through an alias / element)", floor=6)
 rule("C10.f", "a mutable default argument (list / dict / object created in the signature) is never mutated", floor=10)
 rule("C03.f", "optimize() does not modify the problem it is called on (mapping, c, l, u, b are only read or copied): a relaxed "
@@ -33,6 +35,7 @@ EXEMPT_FUNCTIONS = {
 }
 # library roots whose attributes are constants (pd.Timestamp.max ...)
 LIB_ALIASES = {"np", "pd", "sp", "dt", "numpy", "pandas", "scipy", "datetime", "CVX", "math", "copy", "json", "pytz"}
+MAY_RETURN_ARG = {"asarray", "asanyarray", "atleast_1d", "atleast_2d", "ascontiguousarray", "ravel", "reshape", "squeeze", "nan_to_num_inplace"}
 PURE_BUILTINS = {"len", "list", "dict", "str", "int", "float", "isinstance", "range", "tuple", "set", "min", "max", "sorted",
                  "enumerate", "zip", "bool", "abs", "sum", "any", "all", "type", "getattr", "hasattr"}
 
@@ -54,6 +57,8 @@ class _Alias(Domain):
     def __init__(self, an, fn):
         self.an, self.fn = an, fn
         self.muts: list = []
+        self.rets = set()
+        self._dictish = {}
         self.org = an.ctx.origins(fn)
 
     def initial(self, fn):
@@ -85,12 +90,12 @@ class _Alias(Domain):
             p = au.path(e)
             if p and p.startswith("self.") and p.count(".") == 1 and self.fn.cls is not None:
                 return frozenset([(p, 0)])
-            return frozenset((r, d + 1) for r, d in self.alias(e.value, st))
+            return frozenset((r, d + 1) for r, d, *_ in self.alias(e.value, st))
         if isinstance(e, ast.Subscript):
             b = e.value
             if isinstance(b, ast.Name) and isinstance(e.slice, ast.Constant) and (b.id, repr(e.slice.value)) in fresh:
                 return frozenset()
-            return frozenset((r, d + 1) for r, d in self.alias(b, st))
+            return frozenset((r, d + 1) for r, d, *_ in self.alias(b, st))
         if isinstance(e, ast.IfExp):
             return self.alias(e.body, st) | self.alias(e.orelse, st)
         if isinstance(e, ast.BoolOp):
@@ -102,9 +107,77 @@ class _Alias(Domain):
             return self.alias(e.value, st)
         if isinstance(e, ast.Starred):
             return self.alias(e.value, st)
-        # calls (incl. .copy(), dict(..), np.asarray(..)), literals, arithmetic: fresh top level.
-        # np.asarray may return its argument: it is only ever followed by rebinding arithmetic in eaopack; treated as fresh.
+        if isinstance(e, ast.Call):
+            m = au.method_name(e)
+            # np.asarray(x) / np.asanyarray / np.atleast_1d / np.ravel / np.reshape return x itself (or a view) when x already
+            # is an array of the requested type; .values / .to_numpy() are views of the frame's data
+            if m in MAY_RETURN_ARG and e.args and not isinstance(e.func, ast.Attribute) or \
+                    (m in MAY_RETURN_ARG and isinstance(e.func, ast.Attribute) and au.dotted(e.func.value) in ("np", "numpy") and e.args):
+                return self.alias(e.args[0], st)
+            if m in ("to_numpy", "ravel", "reshape", "view", "squeeze") and isinstance(e.func, ast.Attribute) and au.dotted(e.func.value) not in ("np", "numpy"):
+                return self.alias(e.func.value, st)
+            # shallow copies: the container is new, its elements are the original's (dict.copy(), dict(x), list(x), copy.copy)
+            src = None
+            if m == "copy" and isinstance(e.func, ast.Attribute) and au.dotted(e.func.value) != "copy" and not e.args:
+                src = e.func.value
+            elif m in ("dict", "list") and isinstance(e.func, ast.Name) and len(e.args) == 1:
+                src = e.args[0]
+            elif m == "copy" and isinstance(e.func, ast.Attribute) and au.dotted(e.func.value) == "copy" and e.args:
+                src = e.args[0]
+            if src is not None and self.may_be_dict(src):
+                return frozenset((r, d, "shallow") for r, d, *_ in self.alias(src, st))
+            # eaopack callee that may return (part of) an argument
+            out = frozenset()
+            for t in self.an.ctx.p.resolve_call(e, self.fn):
+                for (r, d) in self.an.return_aliases(t):
+                    arg = self._bound_arg(e, t, r)
+                    if arg is not None:
+                        out |= frozenset((r2, d2 + d) for r2, d2, *_ in self._plain(self.alias(arg, st)))
+            return out
+        # literals, arithmetic: fresh
         return frozenset()
+
+    @staticmethod
+    def _plain(al):
+        """drop 'shallow' entries (the container itself is not the root's)"""
+        return frozenset(a[:2] for a in al if len(a) == 2)
+
+    def may_be_dict(self, e) -> bool:
+        """False when the function treats the object as a frame / array (deep .copy()): .loc / .iloc / .index / .columns /
+        .shape / arithmetic on it; otherwise a dict-like container is assumed (shallow copy)."""
+        key = au.path(e) or au.U(e)
+        if key in self._dictish:
+            return self._dictish[key]
+        frame = False
+        for n in au.walk_local(self.fn.node):
+            if isinstance(n, ast.Attribute) and n.attr in ("loc", "iloc", "index", "columns", "shape", "values", "dtype", "T", "size") \
+                    and (au.path(n.value) or au.U(n.value)) == key:
+                frame = True
+            if isinstance(n, ast.BinOp) and any((au.path(x) or "") == key for x in (n.left, n.right)):
+                frame = True
+            if isinstance(n, ast.Call) and au.method_name(n) in ("isnan", "hstack", "vstack", "cumsum", "sum", "zeros", "maximum", "minimum") \
+                    and any((au.path(a) or "") == key for a in n.args):
+                frame = True
+        # a .copy() of the result of an array constructor / arithmetic is an array
+        if isinstance(e, (ast.BinOp, ast.Call)) and not isinstance(e, ast.Name):
+            frame = frame or isinstance(e, ast.BinOp)
+        self._dictish[key] = not frame
+        return not frame
+
+    def _bound_arg(self, call, t, pname):
+        tparams = t.params
+        off = 1 if (t.cls is not None and t.parent is None and tparams and tparams[0].name in ("self", "cls")) else 0
+        if isinstance(call.func, ast.Name) and t.name == "__init__":
+            off = 1
+        for i, a in enumerate(call.args):
+            if isinstance(a, ast.Starred):
+                break
+            if i + off < len(tparams) and tparams[i + off].kind == "pos" and tparams[i + off].name == pname:
+                return a
+        for k in call.keywords:
+            if k.arg == pname:
+                return k.value
+        return None
 
     # ---- leak classification
     def classify(self, value, root, node):
@@ -146,7 +219,7 @@ class _Alias(Domain):
         return False
 
     def _record(self, aliases, node, value, extra_depth=0, via=None, leak=None, why=""):
-        for r, d in aliases:
+        for r, d in self._plain(aliases):
             lk = leak if leak is not None else self.classify(value, r, node)
             self.muts.append(Mutation(r, d + extra_depth, node, value, lk, via, why))
 
@@ -173,7 +246,8 @@ class _Alias(Domain):
                             # x += v mutates lists / arrays in place
                             cur = al.get(e.id, frozenset())
                             if cur:
-                                self._record(cur, node, value, why="augmented assignment on an alias")
+                                # never idempotent: the new content depends on the old one (x *= -1 flips on every call)
+                                self._record(cur, node, value, leak=True, why="augmented assignment on an alias")
                         else:
                             al[e.id] = val_alias if len(elts) == 1 else frozenset()
                             fresh = {f for f in fresh if f[0] != e.id}
@@ -184,12 +258,21 @@ class _Alias(Domain):
                         cont = self.alias(e.value, st)
                         if cont:
                             self._record(cont, node, value)
+                        if isinstance(node, ast.AugAssign):
+                            # x[k] += v is  t = x[k]; t += v (in place for arrays / lists); x[k] = t
+                            elem = self.alias(e, st)
+                            if elem:
+                                self._record(elem, node, value, leak=True, why="augmented assignment on an element that is shared with the original")
                         if isinstance(e, ast.Subscript) and isinstance(e.value, ast.Name) and isinstance(e.slice, ast.Constant):
                             if not val_alias:
                                 fresh.add((e.value.id, repr(e.slice.value)))
                             else:
                                 fresh.discard((e.value.id, repr(e.slice.value)))
             return (al, frozenset(fresh))
+        if isinstance(node, ast.Return) and node.value is not None:
+            vals = node.value.elts if isinstance(node.value, ast.Tuple) else [node.value]
+            for v in vals:
+                self.rets |= set(self._plain(self.alias(v, st)))
         if isinstance(node, ast.Delete):
             for t in node.targets:
                 if isinstance(t, (ast.Subscript, ast.Attribute)):
@@ -248,7 +331,7 @@ class _Alias(Domain):
                 srcs.append(node.iter.func.value)
             for a in srcs:
                 it |= self.alias(a, st)
-        elem = frozenset((r, d + 1) for r, d in it)
+        elem = frozenset((r, d + 1) for r, d, *_ in it)
         for nm in au.target_names(node.target):
             al[nm] = elem
         return (al, frozenset(f for f in fresh if f[0] not in au.target_names(node.target)))
@@ -259,6 +342,7 @@ class EffectAnalysis:
         self.ctx = ctx
         self._sum = {}
         self._full = {}
+        self._rets = {}
         self._stack = []
 
     def mutations(self, fn) -> list:
@@ -284,9 +368,17 @@ class EffectAnalysis:
                         if (o.root, id(o.node), o.depth) == k and m.leak and not o.leak:
                             o.leak = True
             self._full[fn] = out
+            self._rets[fn] = set(dom.rets)
             return out
         finally:
             self._stack.pop()
+
+    def return_aliases(self, fn) -> set:
+        """(parameter, depth) pairs the function's return value may alias."""
+        if fn not in self._rets:
+            self._rets[fn] = set()
+            self.mutations(fn)
+        return {(r, d) for r, d in self._rets.get(fn, set()) if not r.startswith("self.")}
 
     def summary(self, fn) -> list:
         """Mutations of non-self parameters (what a caller needs to know)."""
@@ -307,7 +399,7 @@ def _mutable_default(d) -> bool:
     return False
 
 
-@analysis("effects", ["C10.a", "C10.e", "C10.f", "C15.c", "C03.f"])
+@analysis("effects", ["C10.a", "C10.e", "C10.f", "C15.c", "C03.f", "C06.g"])
 def run(ctx):
     p = ctx.p
     an = ctx.memo("effects", lambda: EffectAnalysis(ctx))
@@ -390,13 +482,21 @@ def run(ctx):
                 if exempt:
                     continue
                 if leaks:
-                    ctx.ob("C10.a", fn, "self.%s" % attr, False,
-                           "an object kept from the constructor (user data, or another asset) is rewritten with call-dependent "
-                           "state: " + "; ".join("%s: %s" % (p.where(m.node), au.short(m.node, 90)) for m in leaks[:4]),
-                           node=leaks[0].node)
+                    rids = ["C10.a"] + (["C06.g"] if p.is_subclass(fn.cls, "CHPAsset") else [])
+                    for rid in rids:
+                        ctx.ob(rid, fn, "self.%s" % attr, False,
+                               "an object kept from the constructor (user data, or another asset) is rewritten with call-dependent "
+                               "state: " + "; ".join("%s: %s" % (p.where(m.node), au.short(m.node, 90)) for m in leaks[:4]),
+                               node=leaks[0].node)
                 elif own:
                     ctx.note("C10.a", fn, "self.%s (idempotent)" % attr, "; ".join(au.short(m.node, 70) for m in own[:3]))
     ctx.require(n_public >= 40, "fewer than 40 public functions analysed")
+    for ci in sorted(p.classes.values(), key=lambda c: c.name):
+        if p.is_subclass(ci, "CHPAsset") and "setup_optim_problem" in ci.methods:
+            m = ci.methods["setup_optim_problem"]
+            if not any(o.rule == "C06.g" and o.fn_name == m.qualname for o in ctx.obs if hasattr(o, "fn_name")):
+                if not any(o.rule == "C06.g" and m.qualname in o.key for o in ctx.obs):
+                    ctx.ob("C06.g", m, "the asset's own parameters are not modified by the set-up", True)
 
     # ------------------------------------------------------------ C10.a: a set-up never overwrites a constructor-kept parameter
     from .serialization import self_attr_writes
